@@ -432,6 +432,65 @@ fn join_toks(prefix: &str, toks: &[&[u8]], suffix: &str) -> Vec<u8> {
     v
 }
 
+fn run_api(overlay: HashMap<String, Bytes>, path: &str, body: &str) -> String {
+    let sm = SymbolManager::with_helper(MemHelper { overlay });
+    futures::executor::block_on(Api::new(&sm).query_api(path, body))
+}
+
+/// `found_modules` / `module_errors` are serialized from a `HashMap`: with two or more entries the order of the
+/// text changes from call to call, so such a response cannot be written into an operation line
+fn order_independent(resp: &str) -> bool {
+    fn walk(v: &serde_json::Value) -> bool {
+        match v {
+            serde_json::Value::Object(o) => o.iter().all(|(k, x)| {
+                let hashed = k == "found_modules" || k == "module_errors";
+                !(hashed && x.as_object().is_some_and(|m| m.len() > 1)) && walk(x)
+            }),
+            serde_json::Value::Array(a) => a.iter().all(walk),
+            _ => true,
+        }
+    }
+    serde_json::from_str::<serde_json::Value>(resp).map(|v| walk(&v)).unwrap_or(true)
+}
+
+/// Turns some `api` operations of a case into `apiresp` operations: the request is run now (on a helper
+/// thread, given up after 20 s) and the response text is written into the operation, so that the Lean judge can
+/// run its own JSON recogniser on the text the implementation returns when the case is executed.
+fn with_response_texts(ops: Vec<String>, rng: &mut Rng, num: u64, den: u64) -> Vec<String> {
+    let mut overlay: HashMap<String, Bytes> = HashMap::new();
+    ops.into_iter()
+        .map(|l| {
+            let w: Vec<&str> = l.split_whitespace().collect();
+            match w.as_slice() {
+                ["file", name, data] => {
+                    if let Some(name) = utf8(name) {
+                        overlay.insert(name, Arc::from(unhex(data).into_boxed_slice()));
+                    }
+                    l
+                }
+                ["api", path, body] if rng.chance(num, den) => {
+                    let (Some(p), Some(b)) = (utf8(path), utf8(body)) else { return l };
+                    let ov = overlay.clone();
+                    let (tx, rx) = std::sync::mpsc::channel();
+                    let spawned = std::thread::Builder::new().stack_size(16 << 20).spawn(move || {
+                        let _ = tx.send(catch_unwind(AssertUnwindSafe(|| run_api(ov, &p, &b))).ok());
+                    });
+                    if spawned.is_err() {
+                        return l;
+                    }
+                    match rx.recv_timeout(Duration::from_secs(20)) {
+                        Ok(Some(resp)) if resp.len() <= 65536 && order_independent(&resp) => {
+                            format!("apiresp {path} {body} {}", hex(resp.as_bytes()))
+                        }
+                        _ => l,
+                    }
+                }
+                _ => l,
+            }
+        })
+        .collect()
+}
+
 fn exec_kernel(w: &[&str], stats: &mut Stats) -> Option<String> {
     let out = match w {
         ["codeid", s] => {
@@ -573,6 +632,22 @@ fn exec_kernel(w: &[&str], stats: &mut Stats) -> Option<String> {
                 }
             })
         }
+        ["errjson", m] => {
+            let m = utf8(m)?;
+            guarded(|| format!("json {}", hex(serde_json::json!({ "error": m }).to_string().as_bytes())))
+        }
+        ["badurl", p] => {
+            let p = utf8(p)?;
+            if ["/symbolicate/v5", "/source/v1", "/asm/v1"].contains(&p.as_str()) {
+                "known-path".to_string()
+            } else {
+                guarded(|| {
+                    let sm = SymbolManager::with_helper(MemHelper { overlay: HashMap::new() });
+                    let r = futures::executor::block_on(Api::new(&sm).query_api(&p, "{}"));
+                    format!("json {}", hex(r.as_bytes()))
+                })
+            }
+        }
         _ => return None,
     };
     let cls = if w[0] == "symindex" { out.replace(' ', "_").chars().take(48).collect::<String>() } else { out.split(' ').next().unwrap_or("").to_string() };
@@ -647,6 +722,13 @@ fn exec_explore(w: &[&str], overlay: &mut HashMap<String, Bytes>, stats: &mut St
                 _ => "otherpath",
             };
             stats.bump(&format!("api_{ep}_{}", if r == "fine" { class } else { r.split(' ').next().unwrap_or("") }));
+            r
+        }
+        ["apiresp", path, body, _expected] => {
+            let (path, body) = (utf8(path)?, utf8(body)?);
+            let ov = overlay.clone();
+            let r = guarded(|| format!("resp {}", hex(run_api(ov, &path, &body).as_bytes())));
+            stats.bump(&format!("apiresp_{}", r.split(' ').next().unwrap_or("")));
             r
         }
         ["lookup", name, addrs @ ..] => {
@@ -870,10 +952,16 @@ impl Prop for C08 {
         }
     }
     fn fixed_cases(&self, tier: Tier) -> Vec<Case> {
+        let mut rng = Rng::new(0xC08A);
         gen::fixed_cases(tier)
+            .into_iter()
+            .map(|c| Case { name: c.name, ops: with_response_texts(c.ops, &mut rng, 1, 1) })
+            .collect()
     }
     fn generate(&self, rng: &mut Rng, tier: Tier, index: u64) -> Vec<String> {
-        gen::generate(rng, tier, index)
+        let ops = gen::generate(rng, tier, index);
+        let den = if tier == Tier::Quick { 6 } else { 40 };
+        with_response_texts(ops, rng, 1, den)
     }
     fn setup(&self, _tier: Tier) {
         let _ = base_files();
@@ -951,7 +1039,7 @@ impl Prop for C08 {
         ops.len() == out.len()
             && out.iter().zip(ops).any(|(o, op)| {
                 o.starts_with("ok ") || o.starts_with("sym ") || o.starts_with("line ") || o.starts_with("frames ")
-                    || o == "parsed" || (o == "fine" && !op.starts_with("debugid")) || o.starts_with("served sym") || o.starts_with("served none")
+                    || o == "parsed" || (o == "fine" && !op.starts_with("debugid")) || o.starts_with("served sym") || o.starts_with("served none") || o.starts_with("resp ") || o.starts_with("json ")
             })
     }
 }
